@@ -20,7 +20,7 @@ EXPLANATION = (
     "R03.2 fixed-width extractor: memcpy length + terminator ≤ destination under the caller's dominating guard on the decoded length; "
     "R03.3 each fixed-size stack array handed to Message::encode(char**): the encoder chain has no capacity parameter; R03.4 loop "
     "progress of MessageBase::decode's field loop and of both loops of decode_group; R03.5 extract_trailer reads `size-7` without a "
-    "size guard; fast_atoi with a non-NUL terminator on string data. R03.6 Message::factory refuses the MsgType texts \"header\" and \"trailer\" (table entries that build a MessageBase) before creating the object. R03.7 Field<int|unsigned|double,N>::print writes through its argument only via the frozen set of length-bounded renderers. NOT decided: other UB, generated code, exception types.")
+    "size guard; fast_atoi with a non-NUL terminator on string data. R03.6 Message::factory refuses the MsgType texts \"header\" and \"trailer\" (table entries that build a MessageBase) before creating the object. R03.7 Field<int|unsigned|double,N>::print writes through its argument only via the frozen set of length-bounded renderers. R03.8 every sockRead into the reader's frame buffer is bounded by the buffer and the byte-wise preamble loop is bounded (rules of C15 R15.1). NOT decided: other UB, generated code, exception types.")
 
 MB = 'FIX8::MessageBase::'
 
@@ -217,4 +217,18 @@ def run(ctx):
                   'a MsgType text "%s" is refused before the table entry\'s object is used as a Message' % pseudo,
                   'the message table entry "%s" builds a MessageBase (it exists so that the context can create %ss); factory looks the wire MsgType up in the same '
                   'table and uses whatever the entry creates as a Message: `35=%s` crashes the decoder' % (pseudo, pseudo, pseudo))
+    # ---------------- R03.8 the socket reader writes network bytes into its frame buffer: every sockRead(dest, n) there is bounded by the buffer
+    # (offset and length from constants and dominating guards) and the byte-wise preamble loop is bounded — the extent rules of C15 (R15.1) re-stated
+    # for this property, so that a change to the reader's buffer arithmetic is reported here as well
+    from ..engine import Ctx as _Ctx
+    from . import c15 as _c15
+    sub15 = _Ctx('C15', ctx.tier)
+    _c15.run(sub15)
+    n15 = 0
+    for o in sub15.obl:
+        if o['rule'] == 'R15.1':
+            n15 += 1
+            ctx._rec(o['ok'], 'R03.8', o['key'].split('@', 1)[1], o['site'], o['what'], o['detail'])
+    ctx.need(n15 >= 4, 'reader extent rules not evaluated (%d)' % n15)
+    ctx.units.update(sub15.units)
     ctx.floor('R03.4', 3)
